@@ -70,7 +70,7 @@ SCALAR_POOL = gen.FLOAT_SCALARS + ["time", "frame", "index_online", "nevents", "
 
 def plan(tier):
     if tier == "quick":
-        return {"runs": 480, "budget_s": 45, "run_timeout_s": 180, "det_pairs": 3}
+        return {"runs": 480, "budget_s": 40, "run_timeout_s": 180, "det_pairs": 3}
     return {"runs": 40000, "budget_s": 780, "run_timeout_s": 300, "det_pairs": 3}
 
 
@@ -423,8 +423,8 @@ class World:
             return None
         cands = []
         for f in sorted(ev):
-            if not dfn.feature_exists(f):
-                continue
+            if not dfn.feature_exists(f) or not isinstance(ev.get(f, getlink=True), h5py.HardLink):
+                continue   # (an external link injected before is not followed here)
             o = ev[f]
             if isinstance(o, h5py.Dataset) and o.shape[0] == n:
                 if f == "index" and "index" in st["kinds"]:
